@@ -8,6 +8,7 @@ import argparse, json, os, shutil, subprocess, sys, glob, time
 ap = argparse.ArgumentParser()
 ap.add_argument("prop"); ap.add_argument("k"); ap.add_argument("--tests", default="")
 ap.add_argument("--skip-check", action="store_true")
+ap.add_argument("--key", default="validated_by_integrator")
 ap.add_argument("--base", default="04de7e7", help="commit the seeded patch applies to (default: the pinned commit)")
 a = ap.parse_args()
 pid, k = a.prop, a.k
@@ -25,6 +26,8 @@ try:
     res["demo_pristine"] = demo()
     ap_ = subprocess.run(["git", "-C", wt, "apply", f"{src}/patch.diff"], capture_output=True, text=True)
     res["apply"] = ap_.returncode
+    if ap_.returncode != 0:
+        raise SystemExit(f"{pid} {k}: patch does not apply to {a.base}")
     res["demo_patched"] = demo()
     tests = []
     for t in a.tests.split():
@@ -68,11 +71,12 @@ finally:
 out = f"/verif/seeded/{pid}-{k}"
 os.makedirs(out, exist_ok=True)
 shutil.copy(f"{src}/patch.diff", out); shutil.copy(f"{src}/demo.py", out)
-meta = json.load(open(f"{src}/meta.json")) if os.path.exists(f"{src}/meta.json") else {}
-meta["validated_by_integrator"] = res
-meta["base_commit"] = a.base
+prev = f"{out}/meta.json"
+meta = json.load(open(prev)) if os.path.exists(prev) else (json.load(open(f"{src}/meta.json")) if os.path.exists(f"{src}/meta.json") else {})
+res["base_commit"] = a.base
+meta[a.key] = res
 caught = bool(res.get("check", {}).get("exit") == 1 and any("no-failing-input-found" not in l for l in res["check"]["lines"] if l.startswith("VIOLATION")))
-meta["caught_by_check"] = ("yes (concrete failing input)" if caught else
+meta["caught_by_check" if a.key == "validated_by_integrator" else "caught_by_check_" + a.key] = ("yes (concrete failing input)" if caught else
                            "broken-link only (no-failing-input-found)" if res.get("check", {}).get("exit") == 1 else
                            "NO" if "check" in res else "not run")
 json.dump(meta, open(f"{out}/meta.json", "w"), indent=1)
